@@ -25,6 +25,10 @@ use strum_macros::Display;
 
 pub type Paths = BTreeSet<PathBuf>;
 
+/// A file that (directly or through others) includes itself would otherwise recurse until the
+/// stack is exhausted
+const MAX_INCLUDE_DEPTH: usize = 64;
+
 // TODO: add file name display support
 #[derive(Clone, Copy, PartialEq, Eq, Debug)]
 pub struct CodePoint {
@@ -127,6 +131,8 @@ impl Macro {
 pub struct ParseContext {
     pub current_path: PathBuf,
     pub include_paths: RefCell<Paths>,
+    /// how many .include directives lead from the main file to this one
+    pub include_depth: usize,
     // common part
     pub common_context: CommonContext,
     // segments
@@ -146,6 +152,7 @@ impl ParseContext {
         Self {
             current_path,
             include_paths,
+            include_depth: 0,
             common_context,
             segments: Rc::new(RefCell::new(vec![Rc::new(RefCell::new(Segment::new(
                 SegmentType::Code,
@@ -223,12 +230,21 @@ pub fn parse_file_internal(context: &ParseContext) -> Result<(), Error> {
     let ParseContext {
         current_path,
         include_paths,
+        include_depth,
         common_context,
         segments,
         macros,
         messages,
     } = context.clone();
     let include_paths = include_paths.borrow_mut();
+
+    if include_depth > MAX_INCLUDE_DEPTH {
+        bail!(
+            "Cannot include file {}: includes nested deeper than {} levels",
+            current_path.to_string_lossy(),
+            MAX_INCLUDE_DEPTH
+        );
+    }
 
     let current_path = if !current_path.as_path().exists() {
         let mut new_path = PathBuf::new();
@@ -274,6 +290,7 @@ pub fn parse_file_internal(context: &ParseContext) -> Result<(), Error> {
     let context = ParseContext {
         current_path,
         include_paths,
+        include_depth,
         common_context,
         segments,
         macros,
